@@ -19,7 +19,7 @@ LN = [None] + list(range(1, 10))
 # (offer args) x (offer-accept args) x (response-accept args) per extension
 LATTICE = {
     DEFLATE: (list(itertools.product(B, B, B, W0)), list(itertools.product(B, W0, N3, WN, MEM)),
-              list(itertools.product(N3, WN))),
+              list(itertools.product(N3, WN, MEM))),
     BZIP2: (list(itertools.product(B, L0)), list(itertools.product(L0, LN)), [(x,) for x in LN]),
     BROTLI: (list(itertools.product(B, B)), list(itertools.product(B, N3)), [(x,) for x in N3]),
 }
@@ -224,3 +224,116 @@ def excname(e):
 
 def shard_rng(seed, *salt):
     return random.Random("%d/%s" % (seed, "/".join(str(s) for s in salt)))
+
+
+# -------------------------------------------------------------------------------------------------
+# enumeration of the surviving effective-parameter pairs, soundness invariants
+# -------------------------------------------------------------------------------------------------
+
+def cfg_tuple(cfg):
+    return tuple(tuple(x) for x in cfg)
+
+
+def with_mem(ext, cfg, smem, cmem):
+    """Same negotiation, other zlib memory levels (local compressor tuning, never on the wire)."""
+    if ext != DEFLATE:
+        return cfg
+    o, a, r = cfg
+    return (o, tuple(a[:4]) + (smem,), tuple(r[:2]) + (cmem,))
+
+
+def neg_key(ext, p):
+    """Effective NEGOTIATED parameters of a PMCE object (memory level left out)."""
+    k = pmce_key(ext, p)
+    return k[:4] if ext == DEFLATE else k
+
+
+def enumerate_pairs(ext):
+    """Silent walk over the lattice (deflate: memory levels fixed to None - they influence neither refusals nor
+    the negotiated parameters).  -> (pairs {(S neg_key, C neg_key): first cfg}, dirs {(d, eff_dir): first cfg},
+    refused {stage: [cfg, ...]})."""
+    K = classes(ext)
+    O, A, RA = LATTICE[ext]
+    if ext == DEFLATE:
+        A = [a for a in A if a[4] is None]
+        RA = [r for r in RA if r[2] is None]
+    pairs, dirs, refused = {}, {}, {"offer-accept": [], "response-accept": []}
+    for o in O:
+        offer = K["Offer"](*o)
+        poffer = K["Offer"].parse(lib_parse_header(offer.get_extension_string())[0][1])
+        for a in A:
+            try:
+                acc = K["OfferAccept"](poffer, *a)
+            except Exception:
+                refused["offer-accept"].append((o, a, RA[0]))
+                continue
+            resp = K["Response"].parse(lib_parse_header(acc.get_extension_string())[0][1])
+            S = K["PMCE"].create_from_offer_accept(True, acc)
+            sk = neg_key(ext, S)
+            for r in RA:
+                try:
+                    racc = K["ResponseAccept"](resp, *r)
+                except Exception:
+                    refused["response-accept"].append((o, a, r))
+                    continue
+                C = K["PMCE"].create_from_response_accept(False, racc)
+                key = (sk, neg_key(ext, C))
+                if key not in pairs:
+                    pairs[key] = (o, a, r)
+                    for d in ("s2c", "c2s"):
+                        dk = (d, eff_dir(ext, S, C, d))
+                        if dk not in dirs:
+                            dirs[dk] = (o, a, r)
+    return pairs, dirs, refused
+
+
+def effective_problems(ext, wire, S, C):
+    """RFC 7692 soundness of what the two ends run, given what went over the wire (``wire`` = c12_ref.wire_params
+    of the response).  Parameters that are on the wire bind both ends; local overrides that never reach the wire
+    only have to be COMPATIBLE: compressor window <= negotiated <= decompressor window, a direction negotiated
+    as no-context-takeover is compressed without context, and a decompressor only drops its context per message
+    when the compressor does.  -> [(direction, clause)]"""
+    probs = []
+    if ext == BZIP2:
+        if S.server_max_compress_level > wire["s_lvl"]:
+            probs.append(("s2c", "compress-level-exceeds-negotiated"))
+        if C.client_max_compress_level > wire["c_lvl"]:
+            probs.append(("c2s", "compress-level-exceeds-negotiated"))
+        return probs
+    for d in ("s2c", "c2s"):
+        cn, dn, cw, dw = eff_dir(ext, S, C, d)
+        wn = wire["s_nct" if d == "s2c" else "c_nct"]
+        if wn and not cn:
+            probs.append((d, "negotiated-no-context-takeover-not-honoured-by-compressor"))
+        if dn and not cn:
+            probs.append((d, "decompressor-drops-context-while-compressor-keeps-it"))
+        if ext == DEFLATE:
+            ww = wire["s_wb" if d == "s2c" else "c_wb"]
+            if cw > ww:
+                probs.append((d, "compressor-window-exceeds-negotiated"))
+            if dw < ww:
+                probs.append((d, "decompressor-window-below-negotiated"))
+    return probs
+
+
+class MixedRefDeflater:
+    """c12_ref.RefDeflater whose flush style may change from message to message.  After a BFINAL message the
+    DEFLATE stream has ended: compressor and (reference) inflater both start over with an empty window."""
+
+    MODES = ("sync", "stored", "split", "fullflush", "bfinal")
+
+    def __init__(self, de):
+        self.de = de
+        self.bfinal_seen = False
+
+    def deflate(self, data, mode):
+        self.de.mode = mode
+        if mode == "stored":
+            self.de.c = None            # level 0 is a property of the zlib object: start a new one (a legal choice:
+            #                             a compressor may always drop its own context)
+        out = self.de.deflate(data)
+        if mode in ("bfinal", "stored"):
+            self.de.c = None
+        if mode == "bfinal":
+            self.bfinal_seen = True
+        return out
